@@ -416,6 +416,13 @@ fn _parse_file_path(path: &str, git_diff_name: bool) -> String {
     // When git config 'core.quotepath = true' (the default), and `path` contains
     // non-ASCII characters, a backslash, or a quote; then it is quoted, so remove
     // these quotes. Characters may also be escaped, but these are left as-is.
+    // (A quoted name ends at its closing quote: a tab inside it would be escaped, so what
+    // follows the first tab - nothing, or the time stamp of `diff -u` - is not part of it.)
+    let path = if path.starts_with('"') {
+        path.split('\t').next().unwrap_or(path)
+    } else {
+        path
+    };
     let path = remove_surrounding_quotes(path);
     // It appears that, if the file name contains a space, git appends a tab
     // character in the diff metadata lines, e.g.
